@@ -21,7 +21,16 @@ pub enum Role {
     /// status exchange whose handshake frame declares exactly this length
     FrameLen { len: i32 },
     /// transfer with a cookie issued `age_s` before, signed with the configured secret or another one
-    Cookie { age_s: u64, right_secret: bool },
+    Cookie {
+        age_s: u64,
+        right_secret: bool,
+        /// seconds the client takes before it answers the cookie request; the age is the one at that moment
+        #[serde(default)]
+        think_s: u64,
+    },
+    /// logs in; after Login Acknowledged it sends an ignorable frame just below the maximum (the server's
+    /// read buffer grows) and then one of `len` > max bytes that arrives in one piece
+    LateOversize { len: i32 },
     Silent,
     Trickle { gap_ns: u64 },
     StopsAfter { frames: usize },
@@ -86,7 +95,9 @@ fn generate(rng: &mut Rng) -> C14Sc {
                     _ => rng.below(expiry.clamp(1, 100_000)),
                 },
                 right_secret: rng.chance(3, 4),
+                think_s: if timeout_s >= 30 { *rng.pick(&[0u64, 0, 1, 3]) } else { 0 },
             },
+            6 if max_frame >= 300 && timeout_s >= 5 && rng.chance(1, 2) => Role::LateOversize { len: max_frame + 1 + rng.below(40) as i32 },
             4 => Role::Silent,
             5 => Role::Trickle { gap_ns: secs(rng.range(1, (timeout_s / 4).max(2))) },
             6 | 7 => Role::StopsAfter { frames: rng.range(1, 7) as usize },
@@ -103,10 +114,20 @@ fn generate(rng: &mut Rng) -> C14Sc {
                     None => spec.host = "h".into(),
                 }
             }
-            Role::Cookie { age_s, right_secret } => {
+            Role::LateOversize { len } => {
+                spec = ClientSpec::base(rng, 2);
+                spec.info_delay_ns = secs(1);
+                let grow = (max_frame - rng.below(10) as i32 - 1).max(1) as usize;
+                spec.extras.push(crate::client::Extra { after_ack: true, at_ns: ms(5), id: 0x02, body: crate::client::Body::Raw { bytes: { let mut b = b"\x0fminecraft:brand".to_vec(); b.resize(grow - 1, 0x2e); b } } });
+                spec.extras.push(crate::client::Extra { after_ack: true, at_ns: ms(10), id: 0x02, body: crate::client::Body::Raw { bytes: { let mut b = b"\x0fminecraft:brand".to_vec(); b.resize((*len - 1) as usize, 0x2e); b } } });
+            }
+            Role::Cookie { age_s, right_secret, think_s } => {
                 spec = ClientSpec::base(rng, 3);
+                if *think_s > 0 {
+                    spec.login_think_ns = vec![0, secs(*think_s)];
+                }
                 let id = Identity { name: "CookieIdent".into(), uuid: 0xc00c1e, props: vec![] };
-                let body = cookie_json(wall.base_s.saturating_sub(*age_s), &effective, &id, Some("t0"));
+                let body = cookie_json((wall.base_s + *think_s).saturating_sub(*age_s), &effective, &id, Some("t0"));
                 let sec = if *right_secret { secret.clone().unwrap_or_else(|| b"none".to_vec()) } else { b"another-secret".to_vec() };
                 spec.auth_cookie = Some(signed_cookie(&sec, &body));
             }
@@ -207,6 +228,15 @@ pub fn check(sc: &C14Sc, out: &NetOutcome, rep: &mut RunReport) {
                 format!("client {i} ({role:?}) admitted at {acc} ns, timeout {} ns, server end closed at {:?}", cfg.timeout_ns, other),
             ),
         }
+        // closing means letting go of the socket, not just ending the server's own direction: a server that
+        // keeps reading from a half-closed connection for as long as the client likes has not closed it
+        match c.released_ns {
+            Some(t) if t <= acc + cfg.timeout_ns => {}
+            other => rep.violate(
+                "released_within_timeout",
+                format!("client {i} ({role:?}) admitted at {acc} ns, timeout {} ns, server end shut down at {:?} but let go of only at {:?}", cfg.timeout_ns, c.closed_ns, other),
+            ),
+        }
         if cfg.timeout_ns == 0 {
             continue; // a zero timeout leaves no time to serve anything: only the deadline rule applies
         }
@@ -224,7 +254,20 @@ pub fn check(sc: &C14Sc, out: &NetOutcome, rep: &mut RunReport) {
                     rep.violate("frame_over_configured_max_is_refused", format!("handshake frame of {len} bytes was served although the configured maximum is {max}"));
                 }
             }
-            Role::Cookie { age_s, right_secret } => {
+            Role::LateOversize { len } => {
+                // the second extra is the over-long one; by the time it is there in one piece the connection is refused
+                let Some(f) = c.view.sent.iter().filter(|s| s.kind == "Extra").nth(1) else { continue };
+                if (f.end - f.start) as i64 <= i64::from(max) {
+                    continue;
+                }
+                let t_frame = PipeState::avail_at(&c.avail, plen + f.end).unwrap_or(u64::MAX);
+                let went_on = c.view.packets.iter().any(|p| matches!(p.kind.as_str(), "Transfer" | "StoreCookie") || (p.kind == "Disconnect" && p.t_ns > t_frame));
+                match c.closed_ns {
+                    Some(t) if t <= t_frame && !went_on => {}
+                    other => rep.violate("late_frame_over_configured_max_is_refused", format!("a configuration-phase frame of {len} bytes (configured maximum {max}) was available in one piece at {t_frame} ns; server closed at {:?}, packets {:?}", other, c.view.kinds())),
+                }
+            }
+            Role::Cookie { age_s, right_secret, .. } => {
                 if c.view.sent.iter().any(|s| (s.end - s.start) as i64 > i64::from(max)) {
                     continue; // the client's own frames exceed the configured maximum: refusing them is correct
                 }
@@ -290,6 +333,7 @@ impl Check for C14 {
             let ok = match r {
                 Role::FrameLen { len } => c.spec.intent == 1 && host_len_for(*len).is_some_and(|h| c.spec.host.len() == h) && c.spec.protocol == 769 && c.spec.cuts.iter().all(|k| k.at < plen_of(c)),
                 Role::Cookie { .. } => c.spec.intent == 3 && c.spec.mute_after.is_none() && c.spec.cuts.iter().all(|k| k.at < plen_of(c)),
+                Role::LateOversize { len } => c.spec.intent == 2 && c.spec.mute_after.is_none() && c.spec.close_after.is_none() && c.spec.cuts.iter().all(|k| k.at < plen_of(c)) && c.spec.extras.len() == 2 && c.spec.extras.iter().all(|x| x.after_ack && x.id == 0x02) && c.spec.extras[0].at_ns < c.spec.extras[1].at_ns && c.spec.info_delay_ns >= ms(500) && c.spec.extras[1].at_ns < ms(400) && matches!(&c.spec.extras[1].body, crate::client::Body::Raw { bytes } if bytes.len() as i32 == *len - 1),
                 _ => true,
             };
             if !ok || c.spec.script.is_some() || !c.spec.mutations.is_empty() || c.spec.preamble.is_some() != sc.net.cfg.proxy.is_some() {
@@ -328,6 +372,7 @@ impl Check for C14 {
             let name = match r {
                 Role::FrameLen { .. } => "client_frame_at_limit",
                 Role::Cookie { .. } => "client_cookie_at_expiry",
+                Role::LateOversize { .. } => "client_overlong_frame_after_login",
                 Role::Silent => "client_silent",
                 Role::Trickle { .. } => "client_trickle",
                 Role::StopsAfter { .. } => "client_stops_mid_protocol",
